@@ -22,7 +22,7 @@ const SAMPLE_ASSUME: &str = "keys, identities, messages and nonces are sampled f
 /// crafted fault fired, the rare branch not reached, ...) ends in a harness error, not in a pass.
 pub fn guards(id: &str) -> Vec<(&'static str, u64)> {
     match id {
-        "C03" => vec![("oracle.C03.O3.5-exact", 1000), ("oracle.C03.O3.4-complete", 1000), ("oracle.C03.annex-example", 1), ("oracle.C03.O3.4-openssl-signature", 24), ("probe.corpus.openssl-signature-accepted", 12), ("probe.sm2.verify.accepted", 1000)],
+        "C03" => vec![("oracle.C03.O3.5-exact", 1000), ("oracle.C03.O3.4-complete", 1000), ("oracle.C03.annex-example", 1), ("probe.rare-digest.e-plus-x1-wraps", 1), ("probe.rare-digest.s-below-2^224", 1), ("oracle.C03.O3.4-openssl-signature", 24), ("probe.corpus.openssl-signature-accepted", 12), ("probe.sm2.verify.accepted", 1000)],
         "C04" => vec![("probe.sm2.verify.accepted", 1000), ("probe.sm2.verify.rejected", 10000), ("fault.flip", 20000), ("fault.truncate", 2000), ("fault.xorpair", 100), ("fault.crafted-k-zero", 10), ("fault.crafted-order2-key", 10), ("fault.component-plus-n-delivered", 2)],
         "C05" => vec![("oracle.C05.O5.2-exact", 500), ("oracle.C05.annex-example", 1), ("oracle.C05.O5.4-openssl-ciphertext", 48), ("oracle.C05.O5.4-independent-ciphertext-decrypts", 1500), ("oracle.C05.kdf-exact", 200), ("probe.sm2.encrypt.retry", 1), ("probe.sm2.zero-kdf-nonce-found", 1), ("probe.sm2.decrypt.accepted", 2000)],
         "C06" => vec![("probe.sm2.decrypt.accepted", 1000), ("probe.sm2.decrypt.rejected", 10000), ("fault.flip", 20000), ("fault.truncate", 2000), ("fault.crafted-invalid-curve", 10), ("fault.crafted-zero-point", 4), ("fault.crafted-non-residue-consistent", 4), ("fault.crafted-coordinate-ge-p", 4), ("fault.xorpair", 100)],
